@@ -381,3 +381,226 @@ Proof. intros Hz S G Ty. step_cases Hz S; cbn; try congruence. Qed.
 Lemma ci_hit data st it st' : zlen (st_zsd st) = zlen data -> step data st it = Ok st' -> st_ci st = None -> ity it = 10 ->
   exists v, val_ci data it = Some v /\ st_ci st' = Some v.
 Proof. intros Hz S G Ty. step_cases Hz S; cbn; try congruence. unfold val_ci. rewrite U. eauto. Qed.
+
+(* ---------- every buffer of an accepted PAC lies inside it ---------- *)
+
+Lemma loop_bounds data its : forall st st', zlen (st_zsd st) = zlen data ->
+  process_loop data its st = Ok st' -> Forall (bounds_ok data) its.
+Proof.
+  induction its as [|it its IH]; intros st st' Hz; cbn [process_loop]; [constructor|].
+  destruct (step data st it) as [st1| |] eqn:S; cbn [bind]; try discriminate.
+  intros E. constructor.
+  - destruct (step_inv _ _ _ _ Hz S) as [B _]. exact B.
+  - eapply IH; [eapply step_zlen; eauto|exact E].
+Qed.
+
+(* ---------- the image that is signed: the loop computes zero_loop ---------- *)
+
+Definition is_some {A} (o : option A) : bool := match o with Some _ => true | None => false end.
+
+Lemma annotate_bufs t : forall i dec, map it_buf (annotate i t dec) = t.
+Proof. induction t as [|b t IH]; intros i dec; cbn [annotate]; [reflexivity|]. destruct dec; cbn [map it_buf]; rewrite IH; reflexivity. Qed.
+
+Lemma bounds_in_bounds data it : bounds_ok data it -> in_bounds data (it_buf it) = true.
+Proof.
+  unfold bounds_ok, in_bounds, ioff, isize. intros (A & B & C).
+  destruct (Z.leb_spec 0 (ib_off (it_buf it))), (Z.leb_spec 0 (ib_size (it_buf it))),
+           (Z.leb_spec (ib_off (it_buf it) + ib_size (it_buf it)) (zlen data)); cbn; auto; lia.
+Qed.
+
+Lemma zero_loop_skip data s6 s7 b r z : in_bounds data b = true ->
+  (ib_type b =? 6) && negb s6 = false -> (ib_type b =? 7) && negb s7 = false ->
+  zero_loop data s6 s7 (b :: r) z = zero_loop data s6 s7 r z.
+Proof. intros B A6 A7. cbn [zero_loop]. rewrite B, A6, A7. reflexivity. Qed.
+
+Lemma zero_loop_6 data s7 b r z zb : in_bounds data b = true -> ib_type b = 6 ->
+  zero_field (slice data (ib_off b) (ib_off b + ib_size b)) = Some zb ->
+  zero_loop data false s7 (b :: r) z = zero_loop data true s7 r (splice z (ib_off b) zb).
+Proof. intros B T Z. cbn [zero_loop]. rewrite B, T, Z. reflexivity. Qed.
+
+Lemma zero_loop_7 data s6 b r z zb : in_bounds data b = true -> ib_type b = 7 ->
+  zero_field (slice data (ib_off b) (ib_off b + ib_size b)) = Some zb ->
+  zero_loop data s6 false (b :: r) z = zero_loop data s6 true r (splice z (ib_off b) zb).
+Proof. intros B T Z. cbn [zero_loop]. rewrite B, T, Z. cbn. reflexivity. Qed.
+
+Lemma loop_zsd data its : forall st st', zlen (st_zsd st) = zlen data ->
+  process_loop data its st = Ok st' ->
+  st_zsd st' = zero_loop data (is_some (st_srv st)) (is_some (st_kdc st)) (map it_buf its) (st_zsd st).
+Proof.
+  induction its as [|it its IH]; intros st st' Hz; cbn [process_loop map].
+  - intros E; injection E as <-; reflexivity.
+  - destruct (step data st it) as [st1| |] eqn:S; cbn [bind]; try discriminate.
+    intros E. rewrite (IH st1 st' (step_zlen _ _ _ _ Hz S) E). clear IH E.
+    destruct (step_inv _ _ _ _ Hz S) as
+      (B & [ (T & [ (N & ->) | (N & O & ->) ])
+           | [ (T & [ (N & ->) | (N & sd & zb & U & ->) ])
+           | [ (T & [ (N & ->) | (N & sd & zb & U & ->) ])
+           | [ (T & [ (N & ->) | (N & ci & U & ->) ])
+           | (T1 & T6 & T7 & T10 & (U1 & U6 & U7 & U10 & Uz)) ]]]]).
+    all: pose proof (bounds_in_bounds _ _ B) as IB; unfold ity in *.
+    all: try (assert (Lb : zlen (buf_bytes data it) <= zlen data)
+               by (destruct B as (? & ? & ?); unfold buf_bytes; rewrite zlen_slice; lia)).
+    + rewrite zero_loop_skip; [reflexivity|exact IB|rewrite T; reflexivity|rewrite T; reflexivity].
+    + cbn [set_kvi st_srv st_kdc st_zsd].
+      rewrite zero_loop_skip; [reflexivity|exact IB|rewrite T; reflexivity|rewrite T; reflexivity].
+    + destruct (st_srv st); [|congruence]. cbn [is_some].
+      rewrite zero_loop_skip; [reflexivity|exact IB|apply andb_false_r|rewrite T; reflexivity].
+    + rewrite N. cbn [set_srv st_srv st_kdc st_zsd is_some].
+      destruct (sig_unmarshal_zero_field (zlen data) (buf_bytes data it) sd zb Lb U) as [ZF _].
+      rewrite (zero_loop_6 data _ (it_buf it) _ _ zb IB T ZF). reflexivity.
+    + destruct (st_kdc st); [|congruence]. cbn [is_some].
+      rewrite zero_loop_skip; [reflexivity|exact IB|rewrite T; reflexivity|apply andb_false_r].
+    + rewrite N. cbn [set_kdc st_srv st_kdc st_zsd is_some].
+      destruct (sig_unmarshal_zero_field (zlen data) (buf_bytes data it) sd zb Lb U) as [ZF _].
+      rewrite (zero_loop_7 data _ (it_buf it) _ _ zb IB T ZF). reflexivity.
+    + rewrite zero_loop_skip; [reflexivity|exact IB|rewrite T; reflexivity|rewrite T; reflexivity].
+    + cbn [set_ci st_srv st_kdc st_zsd].
+      rewrite zero_loop_skip; [reflexivity|exact IB|rewrite T; reflexivity|rewrite T; reflexivity].
+    + rewrite U6, U7, Uz.
+      rewrite zero_loop_skip; [reflexivity|exact IB| |].
+      * destruct (Z.eqb_spec (ib_type (it_buf it)) 6); [contradiction|reflexivity].
+      * destruct (Z.eqb_spec (ib_type (it_buf it)) 7); [contradiction|reflexivity].
+Qed.
+
+(* ---------- completeness of the loop ---------- *)
+
+Lemma first_of_skip ty it r : ity it <> ty -> first_of ty (it :: r) = first_of ty r.
+Proof. intros H. unfold first_of. cbn [find]. destruct (Z.eqb_spec (ity it) ty); [contradiction|reflexivity]. Qed.
+
+Lemma first_of_here ty it r : ity it = ty -> first_of ty (it :: r) = Some it.
+Proof. intros H. unfold first_of. cbn [find]. destruct (Z.eqb_spec (ity it) ty); [reflexivity|contradiction]. Qed.
+
+Lemma loop_complete data its : forall st, zlen (st_zsd st) = zlen data -> Forall (bounds_ok data) its ->
+  (st_kvi st = None -> forall it, first_of 1 its = Some it -> val_kvi it <> None) ->
+  (st_srv st = None -> forall it, first_of 6 its = Some it -> val_sig data it <> None) ->
+  (st_kdc st = None -> forall it, first_of 7 its = Some it -> val_sig data it <> None) ->
+  (st_ci st = None -> forall it, first_of 10 its = Some it -> val_ci data it <> None) ->
+  exists st', process_loop data its st = Ok st'.
+Proof.
+  induction its as [|it its IH]; intros st Hz HB H1 H6 H7 H10; cbn [process_loop]; [eauto|].
+  inversion HB as [|? ? Bit Brest]; subst.
+  destruct (step_ok_exists data st it Hz Bit) as [st1 S].
+  - intros T N. specialize (H1 N it (first_of_here _ _ _ T)). unfold val_kvi in H1. destruct (it_ok it); congruence.
+  - intros T N. specialize (H6 N it (first_of_here _ _ _ T)). unfold val_sig in H6.
+    destruct (sig_unmarshal (zlen data) (buf_bytes data it)) as [r| |]; [eauto|congruence|congruence].
+  - intros T N. specialize (H7 N it (first_of_here _ _ _ T)). unfold val_sig in H7.
+    destruct (sig_unmarshal (zlen data) (buf_bytes data it)) as [r| |]; [eauto|congruence|congruence].
+  - intros T N. specialize (H10 N it (first_of_here _ _ _ T)). unfold val_ci in H10.
+    destruct (client_info_unmarshal (buf_bytes data it)) as [r| |]; [eauto|congruence|congruence].
+  - rewrite S. cbn [bind]. apply IH; [eapply step_zlen; eauto|exact Brest| | | |].
+    + intros N1 it' F. destruct (carry data Z st_kvi 1 val_kvi (kvi_keep data) (kvi_hit data) st it st1 Hz S N1) as [N0 Ty].
+      apply (H1 N0). rewrite first_of_skip by exact Ty. exact F.
+    + intros N1 it' F. destruct (carry data sigdata st_srv 6 (val_sig data) (srv_keep data) (srv_hit data) st it st1 Hz S N1) as [N0 Ty].
+      apply (H6 N0). rewrite first_of_skip by exact Ty. exact F.
+    + intros N1 it' F. destruct (carry data sigdata st_kdc 7 (val_sig data) (kdc_keep data) (kdc_hit data) st it st1 Hz S N1) as [N0 Ty].
+      apply (H7 N0). rewrite first_of_skip by exact Ty. exact F.
+    + intros N1 it' F. destruct (carry data _ st_ci 10 (val_ci data) (ci_keep data) (ci_hit data) st it st1 Hz S N1) as [N0 Ty].
+      apply (H10 N0). rewrite first_of_skip by exact Ty. exact F.
+Qed.
+
+(* ---------- the acceptance set ---------- *)
+
+Definition items_of (data : bytes) (dec : list Z) : list item :=
+  annotate 0 (table_at data (Z.to_nat (cbuffers data))) dec.
+
+Definition accept_spec (data key : bytes) (dec : list Z) : Prop :=
+  (* header and table fit the input (the count is checked against the input length) *)
+  header_ok data /\
+  (* every buffer of the table, whatever its type, lies inside the PAC *)
+  Forall (bounds_ok data) (items_of data dec) /\
+  (* mandatory buffers: the FIRST of each type exists and decodes *)
+  (exists it, first_of 1 (items_of data dec) = Some it /\ it_ok it = true) /\
+  (exists it ci, first_of 10 (items_of data dec) = Some it /\ client_info_unmarshal (buf_bytes data it) = Ok ci) /\
+  (exists it sd, first_of 7 (items_of data dec) = Some it /\ sig_spec (buf_bytes data it) sd) /\
+  (* the server signature: declared type -> etype, keyed checksum with usage 17 over the zeroed image *)
+  (exists it sd et, first_of 6 (items_of data dec) = Some it /\ sig_spec (buf_bytes data it) sd /\
+       etype_of_chksum_type (sint 32 (sd_type sd)) = Some et /\
+       checksum et key 17 (zero_sigs data) = Ok (sd_sig sd)).
+
+Lemma buf_bytes_le data it : bounds_ok data it -> zlen (buf_bytes data it) <= zlen data.
+Proof. intros (A & B & C). unfold buf_bytes. rewrite zlen_slice; lia. Qed.
+
+Lemma val_sig_spec data it sd : bounds_ok data it -> val_sig data it = Some sd <-> sig_spec (buf_bytes data it) sd.
+Proof.
+  intros B. pose proof (buf_bytes_le _ _ B) as L. unfold val_sig. split.
+  - destruct (sig_unmarshal (zlen data) (buf_bytes data it)) as [[sd' zb]| |] eqn:U; try discriminate.
+    intros E; injection E as ->. apply sig_unmarshal_iff in U; [tauto|exact L].
+  - intros S. assert (sig_unmarshal (zlen data) (buf_bytes data it) = Ok (sd, zeroed (buf_bytes data it))) as ->
+      by (apply sig_unmarshal_iff; [exact L|auto]). reflexivity.
+Qed.
+
+Lemma first_of_In ty its it : first_of ty its = Some it -> In it its.
+Proof. unfold first_of. intros H. apply find_some in H. tauto. Qed.
+
+Lemma table_of_eq data pt : pac_unmarshal data = Ok pt -> table_of data = pt_buffers pt.
+Proof. intros E. unfold table_of. rewrite E. reflexivity. Qed.
+
+Theorem pac_accept_iff data key dec :
+  (exists st, pac_process data key dec = Ok st) <-> accept_spec data key dec.
+Proof.
+  unfold pac_process, accept_spec, items_of. split.
+  - intros [stf E].
+    destruct (pac_unmarshal data) as [pt| |] eqn:EU; cbn [bind] in E; try discriminate.
+    pose proof (table_of_eq _ _ EU) as TO.
+    apply pac_unmarshal_iff in EU. destruct EU as [HO ->]. cbn [pt_buffers] in *.
+    set (its := annotate 0 (table_at data (Z.to_nat (cbuffers data))) dec) in *.
+    destruct (process_loop data its (init_state data)) as [st| |] eqn:EL; cbn [bind] in E; try discriminate.
+    destruct (pac_verify key st) as [[]| |] eqn:EV; cbn [bind] in E; try discriminate.
+    assert (Hz : zlen (st_zsd (init_state data)) = zlen data) by reflexivity.
+    pose proof (loop_bounds _ _ _ _ Hz EL) as HB.
+    pose proof (loop_first data Z st_kvi 1 val_kvi (kvi_keep data) (kvi_other data) (kvi_hit data) its _ _ Hz EL eq_refl) as F1.
+    pose proof (loop_first data _ st_srv 6 (val_sig data) (srv_keep data) (srv_other data) (srv_hit data) its _ _ Hz EL eq_refl) as F6.
+    pose proof (loop_first data _ st_kdc 7 (val_sig data) (kdc_keep data) (kdc_other data) (kdc_hit data) its _ _ Hz EL eq_refl) as F7.
+    pose proof (loop_first data _ st_ci 10 (val_ci data) (ci_keep data) (ci_other data) (ci_hit data) its _ _ Hz EL eq_refl) as F10.
+    pose proof (loop_zsd _ _ _ _ Hz EL) as ZS. cbn [init_state st_srv st_kdc st_zsd is_some] in ZS.
+    unfold its in ZS at 1. rewrite annotate_bufs, <- TO in ZS. fold (zero_sigs data) in ZS.
+    unfold pac_verify in EV.
+    destruct (st_kvi st) as [k|] eqn:K; [|discriminate].
+    destruct (st_srv st) as [sd|] eqn:SR; [|discriminate].
+    destruct (st_kdc st) as [kd|] eqn:KD; [|discriminate].
+    destruct (st_ci st) as [ci|] eqn:CI; [|discriminate].
+    destruct (etype_of_chksum_type (sint 32 (sd_type sd))) as [et|] eqn:ET; [|discriminate].
+    destruct (verify_checksum et key 17 (st_zsd st) (sd_sig sd)) eqn:VC; [|discriminate].
+    apply verify_checksum_iff in VC. rewrite ZS in VC.
+    split; [exact HO|]. split; [exact HB|].
+    assert (forall it, In it its -> bounds_ok data it) as HBi by (apply Forall_forall; exact HB).
+    repeat split.
+    + destruct (first_of 1 its) as [it|] eqn:F; [|congruence]. destruct F1 as (v & Hv & _).
+      exists it. split; [reflexivity|]. unfold val_kvi in Hv. destruct (it_ok it); [reflexivity|discriminate].
+    + destruct (first_of 10 its) as [it|] eqn:F; [|congruence]. destruct F10 as (v & Hv & _).
+      unfold val_ci in Hv. destruct (client_info_unmarshal (buf_bytes data it)) as [c| |] eqn:CU; try discriminate.
+      exists it, c. auto.
+    + destruct (first_of 7 its) as [it|] eqn:F; [|congruence]. destruct F7 as (v & Hv & _).
+      exists it, v. split; [reflexivity|]. apply val_sig_spec; [apply HBi, first_of_In with 7, F|exact Hv].
+    + destruct (first_of 6 its) as [it|] eqn:F; [|congruence]. destruct F6 as (v & Hv & Gv).
+      assert (v = sd) as -> by congruence.
+      exists it, sd, et. split; [reflexivity|]. split; [apply val_sig_spec; [apply HBi, first_of_In with 6, F|exact Hv]|].
+      split; [exact ET|exact VC].
+  - intros (HO & HB & (i1 & F1 & O1) & (i10 & ci & F10 & C10) & (i7 & sd7 & F7 & S7) & (i6 & sd & et & F6 & S6 & ET & CK)).
+    assert (EU : pac_unmarshal data = Ok (mkPac (cbuffers data) (le_val (firstn 4 (skipn 4 data))) (table_at data (Z.to_nat (cbuffers data)))))
+      by (apply pac_unmarshal_iff; auto).
+    pose proof (table_of_eq _ _ EU) as TO. rewrite EU. cbn [bind pt_buffers] in *.
+    set (its := annotate 0 (table_at data (Z.to_nat (cbuffers data))) dec) in *.
+    assert (Hz : zlen (st_zsd (init_state data)) = zlen data) by reflexivity.
+    assert (forall it, In it its -> bounds_ok data it) as HBi by (apply Forall_forall; exact HB).
+    destruct (loop_complete data its (init_state data) Hz HB) as [st EL].
+    + intros _ it F. assert (it = i1) as -> by congruence. unfold val_kvi. rewrite O1. discriminate.
+    + intros _ it F. assert (it = i6) as -> by congruence.
+      apply (val_sig_spec data i6 sd (HBi _ (first_of_In _ _ _ F6))) in S6. congruence.
+    + intros _ it F. assert (it = i7) as -> by congruence.
+      apply (val_sig_spec data i7 sd7 (HBi _ (first_of_In _ _ _ F7))) in S7. congruence.
+    + intros _ it F. assert (it = i10) as -> by congruence. unfold val_ci. rewrite C10. discriminate.
+    + rewrite EL. cbn [bind].
+      pose proof (loop_first data Z st_kvi 1 val_kvi (kvi_keep data) (kvi_other data) (kvi_hit data) its _ _ Hz EL eq_refl) as G1.
+      pose proof (loop_first data _ st_srv 6 (val_sig data) (srv_keep data) (srv_other data) (srv_hit data) its _ _ Hz EL eq_refl) as G6.
+      pose proof (loop_first data _ st_kdc 7 (val_sig data) (kdc_keep data) (kdc_other data) (kdc_hit data) its _ _ Hz EL eq_refl) as G7.
+      pose proof (loop_first data _ st_ci 10 (val_ci data) (ci_keep data) (ci_other data) (ci_hit data) its _ _ Hz EL eq_refl) as G10.
+      rewrite F1 in G1. rewrite F6 in G6. rewrite F7 in G7. rewrite F10 in G10.
+      destruct G1 as (v1 & _ & K1). destruct G6 as (v6 & V6 & K6). destruct G7 as (v7 & _ & K7). destruct G10 as (v10 & _ & K10).
+      apply (val_sig_spec data i6 sd (HBi _ (first_of_In _ _ _ F6))) in S6. assert (v6 = sd) as -> by congruence.
+      pose proof (loop_zsd _ _ _ _ Hz EL) as ZS. cbn [init_state st_srv st_kdc st_zsd is_some] in ZS.
+      unfold its in ZS at 1. rewrite annotate_bufs, <- TO in ZS. fold (zero_sigs data) in ZS.
+      unfold pac_verify. rewrite K1, K6, K7, K10, ET.
+      assert (verify_checksum et key 17 (st_zsd st) (sd_sig sd) = true) as -> by (apply verify_checksum_iff; rewrite ZS; exact CK).
+      cbn [bind]. eauto.
+Qed.
